@@ -324,7 +324,19 @@ fn run_case(case: &J) -> J {
             s.adapt_options.mass_matrix_options.gamma = jf(case, "lr_gamma", s.adapt_options.mass_matrix_options.gamma);
             s.adapt_options.mass_matrix_options.eigval_cutoff = jf(case, "eigval_cutoff", s.adapt_options.mass_matrix_options.eigval_cutoff);
             apply_euclid_opts!(s, case);
-            run_global!(s, case, logp)
+            run_global!(s, case, logp, |c: &<LowRankNutsSettings as Settings>::Chain<M>, aux: &mut M| {
+                // the low-rank estimator's window: positions and gradients it holds, oldest first
+                let p = c.verif_state().point().verif_data(aux);
+                let (dr, gr, split) = c.verif_strategy().verif_mass_matrix_adapt().verif_window();
+                json!({
+                    "x": bits_vec(&p.untransformed_position),
+                    "g": bits_vec(&p.untransformed_gradient),
+                    "idx": p.index_in_trajectory,
+                    "lr_draws": dr.iter().map(|v| bits_vec(v)).collect::<Vec<_>>(),
+                    "lr_grads": gr.iter().map(|v| bits_vec(v)).collect::<Vec<_>>(),
+                    "lr_split": split,
+                })
+            })
         }
         "flow_nuts" => {
             let mut s = FlowNutsSettings::default();
